@@ -11,7 +11,7 @@
  A rejection means the code and the detailed model drifted apart (MODEL-DRIFT);
  whether a *property* is violated is decided by TraceObs on the same trace.
  ***************************************************************************)
-EXTENDS Bubus, Json, IOUtils, TLCExt
+EXTENDS Bubus, IOUtils, TLCExt
 Traces == JsonDeserialize(IOEnv.TRACE_FILE)
 VARIABLES tid, l, sil
 tvars == <<tid, l, sil>>
@@ -66,9 +66,9 @@ Counted ==   \* silent steps that change the state
 Spins == \E a \in 1..MaxAct : InlineSpin(a) \/ SpinWake(a)     \* 1000 zero-sleeps revisit the same two states
 
 TNext ==
-  \/ Logged /\ UNCHANGED Cfg /\ StateOK /\ l' = l + 1 /\ sil' = 0 /\ tid' = tid
-  \/ l <= Len(Tr.lines) /\ sil < MaxSilent /\ Counted /\ UNCHANGED Cfg /\ sil' = sil + 1 /\ UNCHANGED <<tid, l>>
-  \/ l <= Len(Tr.lines) /\ Spins /\ UNCHANGED Cfg /\ UNCHANGED <<tid, l, sil>>
+  \/ Logged /\ UNCHANGED <<Cfg, hlog>> /\ StateOK /\ l' = l + 1 /\ sil' = 0 /\ tid' = tid
+  \/ l <= Len(Tr.lines) /\ sil < MaxSilent /\ Counted /\ UNCHANGED <<Cfg, hlog>> /\ sil' = sil + 1 /\ UNCHANGED <<tid, l>>
+  \/ l <= Len(Tr.lines) /\ Spins /\ UNCHANGED <<Cfg, hlog>> /\ UNCHANGED <<tid, l, sil>>
 TSpec == TInit /\ [][TNext]_<<vars, tvars>>
 
 Accept == l = Len(Tr.lines) + 1 => TLCSet(2, TLCGet(2) \cup {tid})
